@@ -384,6 +384,54 @@ def run(rep):
             else:
                 rep.undecided("R08.a", "data/dutils.py", shim, cons_c, "origin of the array not tracked", line=st[0].call.lineno)
     mod = Mod(rep.repo, "data/dutils.py")
+    # the index is narrowed to 32 bits for the kernel: the only thing a wrapper may do with the narrowed values is hand them over or compare
+    # them; a difference / sum of int32 values wraps silently in numpy (INT32_MIN followed by INT32_MAX is a valid non-decreasing index)
+    NARROW = ("np.int32", "int32", "np.intc", "'int32'", "'i4'", "np.int16", "np.int8")
+    ARITH = ("diff", "ediff1d", "subtract", "add", "cumsum", ".cumsum", "multiply", "gradient", "negative", ".ptp", "ptp")
+
+    def _is_narrow_call(y):
+        if not (isinstance(y, tuple) and len(y) >= 3 and y[0] == 'call'):
+            return False
+        if y[1] in ("int32", "np.int32"):
+            return True
+        if y[1] not in ("astype", "array", "asarray", "ascontiguousarray", "require"):
+            return False
+        tys = [z for z in y[2][1:] if isinstance(z, tuple)] + [pq.kw_of(y, "dtype")]
+        return any(z is not None and show(z) in NARROW for z in tys)
+
+    def _narrowed(e):
+        return pq.mentions(e, _is_narrow_call)
+
+    def _wraps(e):
+        if not (isinstance(e, tuple) and e):
+            return False
+        if e[0] in ('sub', 'add', 'mul'):
+            ops = [x for x in e[1:] if isinstance(x, tuple)]
+            return any(_narrowed(x) for x in ops) and not any(x and x[0] == 'num' for x in ops)
+        if e[0] == 'neg':
+            return any(isinstance(x, tuple) and _narrowed(x) for x in e[1:])
+        return e[0] == 'call' and e[1] in ARITH and any(isinstance(x, tuple) and _narrowed(x) for x in e[2])
+    fns_ = {n.name: n for n in mod.tree.body if isinstance(n, ast.FunctionDef)}
+    for shim in ("aggregate", "flathomogen"):
+        fd_ = fns_.get(shim)
+        if fd_ is None:
+            raise AnalysisError(f"data/dutils.py: {shim} not found")
+        cons_w = "the int32 copy of the index is only handed to the kernel or compared: no 32-bit difference / sum (numpy wraps it silently) decides a rejection or a result"
+        try:
+            ev_ = pq.PEval()
+            ev_.inline = {k: v for k, v in fns_.items() if k != shim and k not in ("aggregate", "flathomogen")}
+            wp_ = ev_.run(fd_)
+        except Exception as ex:
+            rep.undecided("R08.a", "data/dutils.py", shim, cons_w, f"wrapper not evaluated: {ex}", line=fd_.lineno)
+            continue
+        hits = []
+        for p_ in wp_:
+            pool = [c for c, _t in p_.conds] + ([p_.value] if isinstance(p_.value, tuple) else [])
+            for e_ in pool:
+                for sub in pq.find(e_, _wraps):
+                    hits.append((p_.how, show(sub)[:90]))
+        rep.check(not hits, "R08.a", "data/dutils.py", shim, cons_w,
+                  f"{hits[0][1]} on a path ending in `{hits[0][0]}`: two valid index values more than 2^31-1 apart give a wrapped value" if hits else f"{len(wp_)} paths", line=fd_.lineno, firm=True)
     st = [s_ for s_ in sites if s_.shim.name == "aggregate" and s_.func.name == "aggregate"][0]
     af = st.func
     paths, _before = pq.site_paths(st)
